@@ -446,9 +446,10 @@ Definition map_truthy (f : str -> str) (o : option str) : option str :=
 Fixpoint index_of (x : str) (l : list str) (i : Z) : option Z :=
   match l with [] => None | y :: r => if str_eqb x y then Some i else index_of x r (i + 1) end.
 
-(* the `encoding` argument -> requested charset number (None = automatic).  `encoding.lower()`: only ASCII
-   letters matter because every name in EPC_ENCODINGS is ASCII and no non-ASCII character lower-cases to one of
-   their letters (checked: U+212A -> 'k' is the only non-ASCII code point with an ASCII lower()). *)
+(* the `encoding` argument -> requested charset number (None = automatic).  `encoding.lower()`: the ASCII lowering
+   [lower] gives the same lookups as Python's str.lower() because every name in EPC_ENCODINGS is ASCII without 'k'
+   (U+212A -> 'k' and U+0130 -> 'i' + U+0307 are the only non-ASCII code points whose lower() contains an ASCII
+   character: Base/PyCase.v; Lemmas/CaseLemmas.v epc_requested_py_lower). *)
 Definition epc_requested (e : epc_encoding) : res (option Z) :=
   match e with
   | EncNone => Ok None
